@@ -26,7 +26,7 @@ def nontrivial(impl):
 
 CHECK = ScenarioCheck(
     "C02", ["SimVerif.Props.C02"], "kernel", gen.generate, spec_c02, nontrivial,
-    "random reactive kernel programs (1-6 timers; expires_at/after incl. past/now/tie, wait, cancel, destroy, post/defer/dispatch, stop/restart, ops at step-hook boundaries) + exhaustive op sequences over a 11-op alphabet on 2 timers; non-trivial = at least 2 handler invocations and one idle point; distinct = distinct implementation trace",
+    "random reactive kernel programs (1-6 timers; expires_at/after incl. past/now/tie, wait, cancel, destroy, post/defer/dispatch, stop/restart, ops at step-hook boundaries) + a family with 2-4 waits pending together (equal expiries, arming order independent of wait order) + a stop/restart family (stop from a handler / step hook / clock-step hook / top with >= 2 waits pending, restart from top or inside the same run, always ending restart, run) + exhaustive op sequences over a 11-op alphabet on 2 timers, alone and after a 4-op prefix that leaves two waits tied; non-trivial = at least 2 handler invocations and one idle point; distinct = distinct implementation trace",
     TRUSTED, ASSUME)
 
 def _extra_cov(results):
